@@ -83,6 +83,9 @@ class Command(BaseCommand):
             time_name = dataset.ems.time_coordinate.name
         except NoSuchCoordinateError:
             time_name = None
+        # A time variable that is not a coordinate of the extracted data is not part of the output
+        if time_name not in point_data.variables:
+            time_name = None
 
         to_netcdf_with_fixes(
             point_data, options.output_path, time_variable=time_name)
